@@ -43,6 +43,10 @@ pub fn families() -> Vec<Family> {
         Family { name: "chunk-whitespace-run", entry: Chunk, cfg: 0, gen: |n| rep(b"1f", b" \t", n, b";x\r\n") },
         Family { name: "tiny-headers", entry: ReqCfg, cfg: 0, gen: |n| rep(RQ, b"a:b\r\n", n, b"\r\n") },
         Family { name: "tiny-headers-parse_headers", entry: Headers, cfg: 0, gen: |n| rep(b"", b"a:b\n", n, b"\n") },
+        Family { name: "minimal-headers-parse_headers", entry: Headers, cfg: 0, gen: |n| rep(b"", b"a:\n", n, b"\n") },
+        Family { name: "minimal-headers-request", entry: ReqCfg, cfg: 0, gen: |n| rep(b"GET / HTTP/1.1\n", b"a:\n", n, b"\n") },
+        Family { name: "minimal-headers-response", entry: RespCfg, cfg: 0, gen: |n| rep(b"HTTP/1.1 200\n", b"b:\n", n, b"\n") },
+        Family { name: "huge-obs-text-reason", entry: RespCfg, cfg: 0, gen: |n| rep(b"HTTP/1.1 200 ", b"\xe9", n, b"\r\n\r\n") },
         Family { name: "empty-value-headers", entry: RespCfg, cfg: 0, gen: |n| rep(RS, b"a:\r\n", n, b"\r\n") },
         Family { name: "folded-lines", entry: RespCfg, cfg: C_FOLDING, gen: |n| rep(b"HTTP/1.1 200 OK\r\nH: x\r\n", b" y\r\n", n, b"\r\n") },
         Family { name: "folded-empty-lines", entry: RespCfg, cfg: C_FOLDING, gen: |n| rep(b"HTTP/1.1 200 OK\r\nH:\r\n", b" \r\n", n, b"\r\n") },
